@@ -1,4 +1,4 @@
-/* wipe_model.c (CBMC only) - C15 ghost model of memWipe / memFree / memAlloc (bodies removed from
+/* wipe_model.c (CBMC; a native twin below is used when a counterexample is replayed) - C15 ghost model of memWipe / memFree / memAlloc (bodies removed from
  * src/core/mem.c):
  *   memWipe(buf, count): fills [buf, buf + count) with 0xA5 and records (object, lo, hi) in a ghost table;
  *   memFree(p): p must be the start of a heap object; the WHOLE object [0, OBJECT_SIZE(p)) must be
@@ -8,6 +8,7 @@
  *   memAlloc(n): malloc(n), counted.
  * Violations are recorded in flags that the harness asserts after its reachability witness (an
  * assertion here would cut the path for the later properties). */
+#ifdef VP_CBMC
 #include <stdlib.h>
 #include <string.h>
 #include <bee2/core/mem.h>
@@ -59,3 +60,40 @@ void memFree(void* p)
 	++vp_frees;
 	free(p);
 }
+
+#else   /* ---- native twin for replay: same monitor, object sizes from its own allocation table ---- */
+#include <stdlib.h>
+#include <string.h>
+#include <bee2/core/mem.h>
+#define VP_NW 64
+unsigned vp_allocs = 0, vp_frees = 0, vp_wipes = 0;
+unsigned vp_free_notbase = 0, vp_free_uncovered = 0, vp_free_dirty = 0;
+static struct { const unsigned char* p; size_t n; } vp_at[VP_NW], vp_wt[VP_NW];
+static unsigned vp_na;
+void* memAlloc(size_t count)
+{
+	void* p = malloc(count);
+	if (p) { if (vp_na < VP_NW) { vp_at[vp_na].p = p; vp_at[vp_na].n = count; ++vp_na; } ++vp_allocs; }
+	return p;
+}
+void memWipe(void* buf, size_t count)
+{
+	if (count == 0) return;
+	memset(buf, 0xA5, count);
+	if (vp_wipes < VP_NW) { vp_wt[vp_wipes].p = buf; vp_wt[vp_wipes].n = count; }
+	++vp_wipes;
+}
+void memFree(void* p)
+{
+	size_t size = 0, i; unsigned k; int found = 0, covered = 0;
+	if (p == 0) return;
+	for (k = 0; k < vp_na; ++k) if (vp_at[k].p == (const unsigned char*)p) { size = vp_at[k].n; found = 1; }
+	if (!found) { vp_free_notbase = 1; ++vp_frees; return; }
+	for (k = 0; k < VP_NW && k < vp_wipes; ++k)
+		if (vp_wt[k].p <= (const unsigned char*)p && vp_wt[k].p + vp_wt[k].n >= (const unsigned char*)p + size) covered = 1;
+	if (!covered) vp_free_uncovered = 1;
+	for (i = 0; i < size; ++i) if (((const unsigned char*)p)[i] != 0xA5) vp_free_dirty = 1;
+	++vp_frees;
+	free(p);
+}
+#endif
